@@ -803,6 +803,62 @@ func (e *Env) evalCall(c *ast.CallExpr) (Val, error) {
 			return Val{}, fmt.Errorf("visited(): need exactly one map iterator, have %d", n)
 		}
 		return Val{mk("Bool", "select", it.visited, k.T), boolT}, nil
+	case "visitedset":
+		// visitedset(): the set of keys the running range-over-map loop has produced so far (an SMT array String -> Bool)
+		it, err := e.theMapIter()
+		if err != nil {
+			return Val{}, err
+		}
+		e.v.usesSetTheory()
+		return Val{relabel(it.visited, "StrSet"), nil}, nil
+	case "domof", "valsof":
+		// domof(m) / valsof(m): the key set / the key -> value function of a string-keyed map as mathematical objects
+		m, err := e.eval(c.Args[0])
+		if err != nil {
+			return Val{}, err
+		}
+		mt, ok := e.v.substT(m.Ty).Underlying().(*types.Map)
+		if !ok || e.v.sortOf(mt.Key()) != "String" {
+			return Val{}, fmt.Errorf("%s() needs a string-keyed map", name)
+		}
+		e.v.usesSetTheory()
+		dom, vals := e.v.mapHeaps(e.st, mt)
+		if name == "domof" {
+			empty := mk("StrSet", "((as const (Array String Bool)) false)")
+			return Val{tIte(tEq(m.T, tNilP), empty, relabel(dom.read(m.T), "StrSet")), nil}, nil
+		}
+		if e.v.sortOf(mt.Elem()) != "Iface" {
+			return Val{}, fmt.Errorf("valsof() needs map[string]any")
+		}
+		return Val{relabel(vals.read(m.T), "StrVals"), nil}, nil
+	case "subset":
+		a, err := e.eval(c.Args[0])
+		if err != nil {
+			return Val{}, err
+		}
+		b, err := e.eval(c.Args[1])
+		if err != nil {
+			return Val{}, err
+		}
+		e.v.usesSetTheory()
+		return Val{tSubset(a.T, b.T), boolT}, nil
+	case "strset", "strnodup":
+		// strset(s): the set of the elements of a []string; strnodup(s): no element occurs twice. Both are abstract
+		// functions of (string heap, slice header); their meaning is fixed by the facts the engine states at append
+		// and for empty slices, and by the contract of sort.Strings.
+		a, err := e.eval(c.Args[0])
+		if err != nil {
+			return Val{}, err
+		}
+		if a.T == nil || a.T.Sort != "Slice" {
+			return Val{}, fmt.Errorf("%s() needs a []string", name)
+		}
+		h := e.v.heapFor(e.st, "String")
+		e.v.usesSetTheory()
+		if name == "strset" {
+			return Val{mk("StrSet", "zz_sset", h.arrayTerm(), a.T), nil}, nil
+		}
+		return Val{mk("Bool", "zz_snodup", h.arrayTerm(), a.T), boolT}, nil
 	case "cur":
 		// cur(x): the current value of the local variable / spilled parameter x (a bare parameter name denotes its entry value)
 		id, ok := c.Args[0].(*ast.Ident)
@@ -944,6 +1000,18 @@ func (e *Env) evalCall(c *ast.CallExpr) (Val, error) {
 			return Val{tFresh(slBase(a.T)), boolT}, nil
 		}
 		return Val{tFresh(a.T), boolT}, nil
+	case "ownalloc":
+		// ownalloc(x): x points into (a slice: is backed by) an object this function itself allocated - stronger than
+		// isnew(), which also accepts objects a callee reported as fresh
+		a, err := e.eval(c.Args[0])
+		if err != nil {
+			return Val{}, err
+		}
+		pt := a.T
+		if pt.Sort == "Slice" {
+			pt = slBase(pt)
+		}
+		return Val{mk("Bool", "zz_isnew", pt), boolT}, nil
 	case "has":
 		m, err := e.eval(c.Args[0])
 		if err != nil {
@@ -1210,6 +1278,13 @@ func (e *Env) evalCall(c *ast.CallExpr) (Val, error) {
 			return Val{}, err
 		}
 		return Val{mk("String", "str.from_code", a.T), types.Typ[types.String]}, nil
+	case "idigits":
+		// decimal digits of a non-negative integer (SMT-LIB str.from_int)
+		a, err := e.eval(c.Args[0])
+		if err != nil {
+			return Val{}, err
+		}
+		return Val{mk("String", "str.from_int", a.T), types.Typ[types.String]}, nil
 	case "strlen":
 		a, err := e.eval(c.Args[0])
 		if err != nil {
@@ -1431,9 +1506,53 @@ func (e *Env) evalCall(c *ast.CallExpr) (Val, error) {
 	return Val{}, fmt.Errorf("unknown function %s in contract", exprStr(c.Fun))
 }
 
+// theMapIter returns the single range-over-map iterator of the frame under verification.
+func (e *Env) theMapIter() (*iterState, error) {
+	if e.frame == nil || len(e.frame.iters) == 0 {
+		return nil, fmt.Errorf("no map iteration in progress")
+	}
+	var it *iterState
+	n := 0
+	for _, x := range e.frame.iters {
+		if !x.isStr && x.visited != nil {
+			it = x
+			n++
+		}
+	}
+	if n != 1 {
+		return nil, fmt.Errorf("need exactly one map iterator, have %d", n)
+	}
+	return it, nil
+}
+
+func relabel(t *Term, sort string) *Term {
+	c := *t
+	c.Sort = sort
+	return &c
+}
+
+// tSubset: a is a subset of b, for Bool-valued arrays (z3's array map combinator; cvc5 rejects it and drops out of the race)
+func tSubset(a, b *Term) *Term {
+	return tEq(a, mk(a.Sort, "(_ map and)", a, b))
+}
+
+// usesSetTheory declares the string-set vocabulary: sets and value maps of string-keyed maps, the set / no-duplicate
+// abstraction of []string contents, and the canonical (sorted) enumeration sslen / ssnth of a finite set.
+func (v *Verifier) usesSetTheory() {
+	if v.D.seen["raw:strset-theory"] {
+		return
+	}
+	v.D.seen["raw:strset-theory"] = true
+	v.D.declFun("zz_sset", []string{"(Array Ptr String)", "Slice"}, "StrSet")
+	v.D.declFun("zz_snodup", []string{"(Array Ptr String)", "Slice"}, "Bool")
+	v.D.add("raw:strset-frame", `(assert (forall ((h (Array Ptr String)) (p Ptr) (x String) (s Slice)) (! (=> (not (and ((_ is zz_elem) p) (= (zz_elem_base p) (zz_sl_base s)))) (and (= (zz_sset (store h p x) s) (zz_sset h s)) (= (zz_snodup (store h p x) s) (zz_snodup h s)))) :pattern ((zz_sset (store h p x) s)) :pattern ((zz_snodup (store h p x) s)))))`)
+	v.D.add("raw:strset-empty", `(assert (forall ((h (Array Ptr String)) (s Slice)) (! (=> (= (zz_sl_len s) 0) (and (= (zz_sset h s) ((as const (Array String Bool)) false)) (zz_snodup h s))) :pattern ((zz_sset h s)) :pattern ((zz_snodup h s)))))`)
+	v.setTheory = true
+}
+
 func isSpecSort(n string) bool {
 	switch n {
-	case "Int", "Bool", "String", "Ptr", "Iface", "Fn", "Slice", "Real":
+	case "Int", "Bool", "String", "Ptr", "Iface", "Fn", "Slice", "Real", "StrSet", "StrVals":
 		return true
 	}
 	return strings.HasPrefix(n, "Spec")
